@@ -147,7 +147,21 @@ def leaf_enum(x):
     return None
 
 
+def deps(ctx):
+    """R7 CANDIDATES (= C01.R2-R4, C16/C15 geometry): the parser returns members of MoveGen::new_legal(board): "only ever legal
+    moves" and "every legal move is parsed back" rest on that list being the legal moves."""
+    from . import c01
+    from ..bb import bb
+    bb(('unit',), ctx.an())
+    sub = Sub(ctx, {'C01.R2': 'C12.R7', 'C01.R3': 'C12.R7', 'C01.R4': 'C12.R7'})
+    c01.r2(sub)
+    c01.r3(sub)
+    c01.r4(sub)
+    tables_dep(ctx, 'C12.R7', ['movegen::movegen::MoveGen::new_legal'])
+
+
 def run(ctx):
+    deps(ctx)
     panics.audit(ctx, 'C12.R1', [KEY])
     s = summary(ctx, KEY, 'C12.R2')
     if s is None:
